@@ -822,6 +822,8 @@ pub struct Pair {
 	pub restarts_after_in: u32,
 	/// B was restarted from a manager snapshot taken before it sent the downstream add (monitors newer)
 	pub stale_restart: bool,
+	/// B learned the preimage by message and crashed before it reached a manager snapshot or a monitor image
+	pub knowledge_lost: bool,
 }
 
 /// What a signed commitment transaction contains (from the signer record and the model).
@@ -857,6 +859,7 @@ pub struct FwdStats {
 	pub fee_edge: [u64; 3],
 	pub delta_edge: [u64; 3],
 	pub disturbed_pairs: u64,
+	pub knowledge_lost: u64,
 }
 
 pub struct FwdOracle {
@@ -1192,8 +1195,33 @@ impl FwdOracle {
 						}
 					}
 				},
-				M::S(SEvent::Restart { node, ok, snapshot_step, .. }) => {
+				M::S(SEvent::Restart { node, ok, snapshot_step, monitor_ids, .. }) => {
 					if node == B && ok {
+						// Knowledge that existed only in memory dies with the process: a preimage B learned by message
+						// survives the crash only if the manager snapshot used was taken after it was learned (the
+						// manager carries the claim and its in-flight updates) or a monitor image used contains it.
+						let lost: Vec<[u8; 32]> = self
+							.pairs
+							.values()
+							.filter(|p| match p.learned {
+								Some((t, "message")) => {
+									let needle = sim.pays.iter().find(|x| x.hash.0 == p.hash).map(|x| format!("{:?}", x.preimage)).unwrap_or_default();
+									let in_image = self.b_updates.iter().any(|(ci, v)| {
+										let used = monitor_ids.iter().find(|(c, _)| chan_of(sim, c) == Some(*ci)).map(|(_, id)| *id).unwrap_or(0);
+										v.iter().any(|u| (u.3 || u.0 <= used) && u.2.contains(&needle))
+									});
+									!(snapshot_step > t || in_image)
+								},
+								_ => false,
+							})
+							.map(|p| p.hash)
+							.collect();
+						for h in lost {
+							let p = self.pairs.get_mut(&h).unwrap();
+							p.learned = None;
+							p.knowledge_lost = true;
+							self.stats.knowledge_lost += 1;
+						}
 						self.stats.restarts_b += 1;
 						self.b_inflight.clear();
 						for ci in 0..sim.chans.len() {
@@ -1539,6 +1567,7 @@ impl FwdOracle {
 								restart_in_window: false,
 								restarts_after_in: 0,
 								stale_restart: false,
+								knowledge_lost: false,
 							},
 						);
 					},
